@@ -30,7 +30,13 @@ type Step struct {
 	Args     []string               `json:"args,omitempty"`
 	Name     string                 `json:"name,omitempty"` // deploy: contract name
 	Repeat   int                    `json:"repeat,omitempty"` // same-engine nodes re-run this step this many extra times as dry runs (map-order sampling)
+	// scenario steps (raw steps named "scn:<scenario>:<k>"): hand-written expectation of the log, or of the failure
+	Expect    []string `json:"expect,omitempty"`
+	HasExpect bool     `json:"has_expect,omitempty"`
+	Fails     string   `json:"fails,omitempty"`
 }
+
+func (s *Step) IsScenario() bool { return strings.HasPrefix(s.Name, "scn:") }
 
 type Plan struct {
 	Property string       `json:"property"`
